@@ -148,7 +148,7 @@ func loadAll(pkgDirs []string) (*loaded, error) {
 	prog.Build()
 	eng := &Engine{prog: prog, layouts: map[string][]Comp{}, heapSorts: map[string]Sort{}, heapComps: map[string]Comp{}, typeIDs: map[string]int{},
 		contracts: map[string]*FuncContract{}, specs: map[string]*SpecFunc{}, fnByKey: map[string]*ssa.Function{}, repoPrefix: modPath, pkgInvs: map[string][]Clause{}, implCache: map[string]map[string]bool{}, disabledFrames: map[string]bool{}, funcIDs: map[*ssa.Function]int{}, funcByID: map[int]*ssa.Function{}, ghostFields: map[string][]GhostField{},
-		guards: map[string]map[string]*GuardDecl{}, guardDecls: map[string][]*GuardDecl{}}
+		guards: map[string]map[string]*GuardDecl{}, exclusive: map[string]map[string]*GuardDecl{}, guardDecls: map[string][]*GuardDecl{}}
 	for _, cf := range ld.files {
 		for _, sf := range cf.Specs {
 			if _, dup := eng.specs[sf.Name]; dup {
@@ -171,10 +171,14 @@ func loadAll(pkgDirs []string) (*loaded, error) {
 				eng.guardDecls[pp] = append(eng.guardDecls[pp], gd)
 				if gd.Once == "" {
 					k := pp + "." + gd.Type
-					if eng.guards[k] == nil {
-						eng.guards[k] = map[string]*GuardDecl{}
+					tgt := eng.guards
+					if gd.Exclusive {
+						tgt = eng.exclusive
 					}
-					eng.guards[k][gd.Field] = gd
+					if tgt[k] == nil {
+						tgt[k] = map[string]*GuardDecl{}
+					}
+					tgt[k][gd.Field] = gd
 				}
 			}
 		} else if len(cf.Guards) > 0 {
@@ -941,12 +945,17 @@ func (ld *loaded) lockCoverage(prop string, reports []*FuncReport) []*FuncReport
 					if fa, ok := in.(*ssa.FieldAddr); ok {
 						if pt, ok := fa.X.Type().Underlying().(*types.Pointer); ok {
 							if nt, ok := pt.Elem().(*types.Named); ok && nt.Obj().Pkg() != nil && nt.Obj().Pkg().Path() == pp {
-								if gm := eng.guards[pp+"."+nt.Obj().Name()]; gm != nil {
-									fname := nt.Underlying().(*types.Struct).Field(fa.Field).Name()
-									if gd := gm[fname]; gd != nil && hasProp(gd.Props, prop) && (gd.Mutex != "" || guardedWrite(fa)) {
-										if _, seen := touches[nt.Obj().Name()+"."+fname]; !seen {
-											touches[nt.Obj().Name()+"."+fname] = fa.Pos()
-										}
+								fname := nt.Underlying().(*types.Struct).Field(fa.Field).Name()
+								hit := false
+								if gd := eng.guards[pp+"."+nt.Obj().Name()][fname]; gd != nil && hasProp(gd.Props, prop) && (gd.Mutex != "" || guardedWrite(fa)) {
+									hit = true
+								}
+								if gd := eng.exclusive[pp+"."+nt.Obj().Name()][fname]; gd != nil && hasProp(gd.Props, prop) {
+									hit = true
+								}
+								if hit {
+									if _, seen := touches[nt.Obj().Name()+"."+fname]; !seen {
+										touches[nt.Obj().Name()+"."+fname] = fa.Pos()
 									}
 								}
 							}
